@@ -251,6 +251,8 @@ func (a *analysis) oracleC04() verdict {
 		return inconclusive("render error in scenario")
 	}
 	r := a.tapeCheck()
+	a.ob("frames_replayed_through_emulator", len(a.frames))
+	a.ob("persisted_lines_at_end", len(r.persisted))
 	if r.msg != "" {
 		return a.fv(a.tapeKey(r.key), "%s", r.msg)
 	}
@@ -318,6 +320,8 @@ func (a *analysis) oracleC18() verdict {
 		return inconclusive("not a pop-mode scenario")
 	}
 	r := a.tapeCheck()
+	a.ob("frames_replayed_through_emulator", len(a.frames))
+	a.ob("persisted_lines_at_end", len(r.persisted))
 	if r.msg != "" {
 		return a.fv(a.tapeKey(r.key), "%s", r.msg)
 	}
@@ -389,6 +393,7 @@ func (a *analysis) oracleC18() verdict {
 			}
 		}
 	}
+	a.ob("popped_bars_found_persisted_once", popped)
 	return held(popped >= 1)
 }
 
@@ -450,6 +455,7 @@ func (a *analysis) oracleC17() verdict {
 		if lpc >= 0 && lpc < len(a.begins) && a.addRet[bi] < a.begins[lpc] {
 			// queued in time: must take over in the very next frame
 			nt = true
+			a.ob("timely_handovers_checked", 1)
 			if a.first[bi] != lp+1 {
 				return a.fv("handover-gap", "bar %d was queued after bar %d before the cycle of %d's last frame (%d) began, but first appears in frame %d, not %d", bi, p, p, lp, a.first[bi], lp+1)
 			}
@@ -460,6 +466,7 @@ func (a *analysis) oracleC17() verdict {
 			}
 		} else {
 			late = true
+			a.ob("late_successors_checked", 1)
 			// created after (or while) the predecessor left: must appear promptly
 			for fi, f := range a.frames {
 				if f.Cycle >= 0 && f.Cycle < len(a.begins) && a.begins[f.Cycle] > a.addRet[bi] && fi > lp+1 {
@@ -766,6 +773,9 @@ func (a *analysis) oracleC06() verdict {
 			}
 		}
 	}
+	a.ob("frames_order_checked", checked)
+	a.ob("priority_updates", nUpd)
+	a.ob("pop_events", len(popSeq))
 	return held(checked >= 2 && (nUpd > 0 || len(popSeq) > 0 || n > 2))
 }
 
@@ -861,8 +871,10 @@ func (a *analysis) oracleC11() verdict {
 				return a.fv("aborted-flipped", "bar %d: Aborted observed true (%s, returned t=%d), later observed false (%s, invoked t=%d)", bi, seenA.src, seenA.ret, o.src, o.inv)
 			}
 		}
+		a.ob("flag_observations", len(os))
 		if (seenC != nil || seenA != nil) && len(os) > 2 {
 			crossing = true
+			a.ob("bars_observed_across_terminal_transition", 1)
 		}
 	}
 	return held(crossing)
@@ -1121,6 +1133,7 @@ func (a *analysis) oracleC12() verdict {
 			}
 		}
 	}
+	a.ob("synced_fields_checked", synced)
 	return held(synced >= 4 && len(a.frames) >= 2)
 }
 
@@ -1194,6 +1207,7 @@ func (a *analysis) oracleC15() verdict {
 			cyclesAfter++
 		}
 	}
+	a.ob("failed_cycles_examined", 1)
 	if cyclesAfter > 0 {
 		return a.fv("render-after-error:"+site, "%d render cycles began after the one that failed", cyclesAfter)
 	}
